@@ -33,3 +33,50 @@ void h_xstream_join(void)
     VF_ASSERT(ABT_xstream_join(ABT_XSTREAM_NULL) == ABT_ERR_INV_XSTREAM, "NULL handle");
     VF_REACH("xstream_join"); VF_COVER(r == ABT_SUCCESS, "joined"); VF_COVER(self_join, "self join");
 }
+
+/* ABT_xstream_free / ABTI_xstream_free: nothing of the stream is released before
+ * it has been joined (C06: free waits for all work), everything is released
+ * exactly once afterwards, the stream leaves the global rank list (C17: its rank
+ * can be reused), the handle is reset; the caller's own stream and the primary
+ * stream are refused untouched.  ABT_xstream_cancel / ABT_xstream_exit raise the
+ * CANCEL request on the stream's main scheduler (primary refused). */
+static unsigned n_memfin, n_schedfree, n_rootfree, n_poolfree, n_ctxfree, t_first_release; static const void *a_memfin, *a_sched, *a_root, *a_pool, *a_ctx; static ABT_bool a_force; static int listed_at_release;
+#define REL() do { vf_clock++; if (!t_first_release) t_first_release = vf_clock; } while (0)
+void ABTI_mem_finalize_local(ABTI_xstream *x) { n_memfin++; a_memfin = x; REL(); }
+void ABTI_sched_discard_and_free(ABTI_global *g, ABTI_local *l, ABTI_sched *s, ABT_bool force) { n_schedfree++; a_sched = s; a_force = force; REL(); }
+void ABTI_ythread_free_root(ABTI_global *g, ABTI_local *l, ABTI_ythread *y) { n_rootfree++; a_root = y; REL(); }
+void ABTI_pool_free(ABTI_pool *p) { n_poolfree++; a_pool = p; REL(); }
+void ABTD_xstream_context_free(ABTD_xstream_context *c) { n_ctxfree++; a_ctx = c; REL(); }
+static ABTI_ythread rooty; static ABTI_pool rootpool; static ABTI_xstream other;
+void h_xstream_free(void)
+{
+    setup(); n_memfin = n_schedfree = n_rootfree = n_poolfree = n_ctxfree = 0; t_first_release = 0;
+    ABTI_xstream *x = malloc(sizeof *x); if (!x) return; *x = tgt; x->p_root_ythread = &rooty; x->p_root_pool = &rootpool; ABTD_xstream_context *ctxp = &x->ctx;
+    /* the global rank list: [x] or [other, x] */
+    int two; if (two) { glob.p_xstream_head = &other; other.p_prev = NULL; other.p_next = x; x->p_prev = &other; x->p_next = NULL; glob.num_xstreams = 2; } else { glob.p_xstream_head = x; x->p_prev = NULL; x->p_next = NULL; glob.num_xstreams = 1; }
+    glob.xstream_list_lock.val.val = 0;
+    int which; VF_ASSUME(0 <= which && which <= 2); /* 0 the stream, 1 NULL handle, 2 the caller's own stream */
+    if (which == 2) { lp_ABTI_local = (ABTI_local *)x; x->p_thread = &me_y.thread; }
+    ABT_xstream h = which == 1 ? ABT_XSTREAM_NULL : (ABT_xstream)x; ABT_xstream h0 = h;
+    int self_join = which == 0 && lp_ABTI_local && me_xs.p_thread == &sched_y.thread;
+    int prim = x->type == ABTI_XSTREAM_TYPE_PRIMARY;
+    int r = ABT_xstream_free(&h);
+    if (which != 0 || prim || self_join) {
+        /* x is still allocated on these paths */
+        VF_ASSERT(r == ABT_ERR_INV_XSTREAM && h == h0 && vf_joins == 0 && vf_ctxjoins == 0 && n_memfin + n_schedfree + n_rootfree + n_poolfree + n_ctxfree == 0 && glob.num_xstreams == (two ? 2 : 1), "NULL handle, the caller's own stream, the primary stream (and a main scheduler freeing its own stream): refused, nothing joined, nothing released, still listed, handle unchanged");
+        free(x); VF_REACH("free refused"); return;
+    }
+    VF_ASSERT(r == ABT_SUCCESS && h == ABT_XSTREAM_NULL, "success: handle reset");
+    VF_ASSERT(vf_finishes == 1 && vf_joins == 1 && vf_join_thread == &sched_y.thread && vf_ctxjoins == 1 && vf_ctxjoin_ctx == ctxp && vf_t_finish < vf_t_join && vf_t_join < vf_t_ctxjoin && vf_t_ctxjoin < t_first_release, "joined first (finish request, main-scheduler ULT, native thread), and only then is anything released");
+    VF_ASSERT(n_memfin == 1 && a_memfin == x && n_schedfree == 1 && a_sched == &msched && a_force == ABT_FALSE && n_rootfree == 1 && a_root == &rooty && n_poolfree == 1 && a_pool == &rootpool && n_ctxfree == 1 && a_ctx == ctxp, "its memory pools, main scheduler (not forced: a user's scheduler survives), root ULT, root pool and native context are released exactly once each");
+    VF_ASSERT(glob.num_xstreams == (two ? 1 : 0) && glob.p_xstream_head == (two ? &other : NULL) && (!two || other.p_next == NULL) && glob.xstream_list_lock.val.val == 0, "the stream left the global rank list (its rank is free again), the list lock is free");
+    VF_REACH("freed"); /* --memory-leak-check: the descriptor itself is released (exactly once: double free is a CBMC check) */
+}
+void h_xstream_cancel(void)
+{
+    setup(); int nullh; uint32_t rq0; sched_y.thread.request.val = rq0;
+    int r = ABT_xstream_cancel(nullh ? ABT_XSTREAM_NULL : (ABT_xstream)&tgt);
+    if (nullh || tgt.type == ABTI_XSTREAM_TYPE_PRIMARY) VF_ASSERT(r == ABT_ERR_INV_XSTREAM && sched_y.thread.request.val == rq0, "NULL handle / the primary stream: refused, no request raised");
+    else VF_ASSERT(r == ABT_SUCCESS && sched_y.thread.request.val == (rq0 | ABTI_THREAD_REQ_CANCEL), "the CANCEL request is raised on the stream's main-scheduler ULT, no other bit changes");
+    VF_REACH("cancel");
+}
